@@ -3,6 +3,7 @@ package gateway
 import (
 	"fmt"
 	"runtime/debug"
+	"slices"
 	"strings"
 	"sync"
 	"sync/atomic"
@@ -412,7 +413,7 @@ func TestC43(t *testing.T) {
 	}
 	r.Rule = fmt.Sprintf("part 1: every leaf predicate value of its domain (tos 256, dscp 256 incl. out-of-range, protocol: every "+
 		"alphabetic gopacket protocol name in 3 casings, port singles/ranges over a 10-value boundary set, src/dst nets of every "+
-		"prefix length 0..32 on 3 base addresses) x the packets that distinguish them; part 2: every ordered expression tree with "+
+		"prefix length 0..32 on 4 base addresses) x the packets that distinguish them; part 2: every ordered expression tree with "+
 		"<= %d nodes (all/any with >=1 children, not) over %d leaves and with <= %d nodes over 6 of them (one per predicate family), "+
 		"each in 2 spellings + constructed form, x %d packets "+
 		"(3 src x 3 dst x 3 TOS x {UDP,TCP x 3x3 ports, ICMP, GRE}); a case is one (expression, form); distinct = distinct "+
@@ -715,7 +716,7 @@ func c43Part1(r *mc.Run) {
 	run(cases, portPk)
 	r.Extra["part1_port_cases"] = len(cases)
 
-	// networks: every prefix length on 3 bases; packets at the edges of the network
+	// networks: every prefix length on 4 bases; packets at the edges of the network
 	bases := []uint32{0x0a0102c3, 0xffffffff, 0x00000000, 0xc0a8ff80}
 	toA := func(x uint32) [4]byte { return [4]byte{byte(x >> 24), byte(x >> 16), byte(x >> 8), byte(x)} }
 	for _, b := range bases {
@@ -737,7 +738,12 @@ func c43Part1(r *mc.Run) {
 			cases = append(cases, c43LeafCase{"dst", "dst=" + txt, func(p v4Spec) bool { return inPrefix(p.Dst, b, bits) }})
 		}
 		var netPk []v4Spec
+		addrs := make([]uint32, 0, len(addrSet))
 		for a := range addrSet {
+			addrs = append(addrs, a)
+		}
+		slices.Sort(addrs)
+		for _, a := range addrs {
 			s := base
 			s.Src, s.Dst = toA(a), toA(^a)
 			netPk = append(netPk, s)
